@@ -141,3 +141,33 @@ func HarnessHookFailures() {
 		vrt.Assert(named >= 1 || strings.Contains(err.Error(), "critical hooks failed"), "error-names-the-failure")
 	}
 }
+
+// A critical and a non-critical hook failing at the same point (moment and weight), in either order of
+// collection (the errors are gathered in a map: its iteration order is explored), and a third hook at a later
+// weight of the same moment: the critical failure still counts - the later weight does not run, the failure is
+// reported, and a cancelling moment keeps the source state.
+//verif:entry HarnessMixedFailuresAtOnePoint unwind=64 preempt=0 maporder=2 maporderin=handleHooks reach=cancelled,reported stub=github.com/AliceO2Group/Control/common/utils.TimeTrack nosched=github.com/AliceO2Group/Control/core/the.mu
+func HarnessMixedFailuresAtOnePoint() {
+	moment := vrt.IntRange("moment", 0, 3)
+	critFirst := vrt.Bool("critical.declared.first")
+	point := c09Moments[moment] + "+0"
+	specs := []fenvHook{{name: "h0", trigger: point, critical: critFirst}, {name: "h1", trigger: point, critical: !critFirst}, {name: "late", trigger: c09Moments[moment] + "+7", critical: true}}
+	rec := &fenvRec{}
+	rec.onCall = func(c *callable.Call) error {
+		if c.GetName() == "root.late" {
+			return nil
+		}
+		return failingCall(c)
+	}
+	env := fenvNew(&fenvConf{}, rec, "DEPLOYED", specs)
+	err := env.TryTransition(fenvTransition{name: "CONFIGURE", rec: rec})
+	vrt.Assert(err != nil, "critical-failure-next-to-a-non-critical-one-is-reported")
+	vrt.Assert(rec.count("call:root.late:start") == 0, "later-weights-of-a-moment-are-skipped-after-a-critical-failure")
+	if moment < 2 {
+		vrt.Assert(env.CurrentState() == "DEPLOYED" && rec.count("do:CONFIGURE:begin") == 0, "cancelled-transition-keeps-the-source-state")
+		vrt.Reach("cancelled")
+	} else {
+		vrt.Assert(env.CurrentState() == "CONFIGURED", "late-critical-failure-keeps-the-destination-state")
+		vrt.Reach("reported")
+	}
+}
